@@ -9,7 +9,9 @@ patch="$(realpath "$1")"; shift
 [ $# -gt 0 ] || set -- C01 C02 C03 C04 C05 C06 C07 C08 C09 C10 C11 C12 C13 C14 C15 C16 C17 C18 C19 C20
 scratch=$(mktemp -d /dev/shm/mtbl-ben-XXXXXX)
 trap 'rm -rf "$scratch"' EXIT
-( cd /repo && git ls-files -z | xargs -0 cp --parents -t "$scratch" ) || exit 2
+# BASE=<commit>: apply the patch to that commit of /repo instead of the working tree (patches made before a later fix)
+if [ -n "${BASE:-}" ]; then git -C /repo archive "$BASE" | tar -x -C "$scratch" || exit 2
+else ( cd /repo && git ls-files -z | xargs -0 cp --parents -t "$scratch" ) || exit 2; fi
 if ! ( cd "$scratch" && patch -p1 -s < "$patch" ); then echo "PATCH-FAILED $patch"; exit 2; fi
 cd "$(dirname "$0")"
 mkdir -p replays/benign
